@@ -15,6 +15,7 @@
 (*  binit  regs ks ke          boot allocator initialised for a map         *)
 (*  balloc res f               BootMemAllocator.AllocFrame returned         *)
 (*  breset                     cursor and count zeroed (hand-over replay)   *)
+(*  handover res boot marked   real hand-over after |boot| allocations      *)
 (*  init   regs ks ke res early total reserved     pmm.Init returned        *)
 (*  alloc  res f total reserved lock               AllocFrame returned      *)
 (*  free   f res total reserved lock               FreeFrame(f) returned    *)
@@ -74,6 +75,19 @@ MonBAlloc(s, e) ==
           <<"C02", s.replay /\ s.bi < Len(s.bh), <<"replay reported out-of-memory early", s.bi>> >> >>]
 
 MonBReset(s, e) == [s |-> [s EXCEPT !.replay = TRUE, !.bi = 0], cs |-> <<>>]
+
+\* the REAL hand-over (setupPoolBitmaps, reserveKernelFrames, reserveEarlyAllocatorFrames) after e.boot frames were
+\* consumed: "the frames consumed during boot can be recovered exactly at hand-over" - e.marked are the frames
+\* the bitmaps hold as reserved afterwards: exactly the kernel image and the consumed frames
+MonHandover(s, e) ==
+  LET boot == Range(e.boot)  marked == Range(e.marked) IN
+  [s |-> s,
+   cs |-> <<
+     <<"C02", e.res = "panic", "hand-over panicked">>,
+     <<"C02", e.res = "ok" /\ \E f \in boot : f \notin marked,
+              <<"a frame consumed during boot is not reserved after hand-over", {f \in boot : f \notin marked}>> >>,
+     <<"C02", e.res = "ok" /\ \E f \in marked : f \notin boot /\ ~InKernel(s, f),
+              <<"hand-over reserved a frame that was never consumed", {f \in marked : f \notin boot /\ ~InKernel(s, f)}>> >> >>]
 
 --------------------------------------------------------------------------
 (* C01 / C03: pmm.Init, then AllocFrame / FreeFrame of the main allocator *)
@@ -135,6 +149,7 @@ Mon(s, e) ==
   CASE e.k = "binit"  -> MonBInit(s, e)
     [] e.k = "balloc" -> MonBAlloc(s, e)
     [] e.k = "breset" -> MonBReset(s, e)
+    [] e.k = "handover" -> MonHandover(s, e)
     [] e.k = "init"   -> MonInit(s, e)
     [] e.k = "alloc"  -> MonAlloc(s, e)
     [] e.k = "free"   -> MonFree(s, e)
